@@ -233,3 +233,59 @@ Proof.
   - intros c [-> | [-> | ->]]; apply Har, Hcs; auto. now left.
   - eapply Hp; eauto.
 Qed.
+
+(** ** the deterministic reading of the port-graph mutex tree is faithful on every
+    host, under every binding that is injective on the keys of the constraints *)
+From PM Require Import Spec.TreeSem Spec.TreeDet.
+
+Definition pg_vb (h : pghost) (m : pgmap) (c : pgconstraint) : bool :=
+  match resolve_args pg_dom m (cargs c) with
+  | inr vs => match pg_check h (cpred c) vs with Ok true => true | _ => false end
+  | inl _ => false
+  end.
+
+Lemma pg_vb_holds h m c : pg_vb h m c = true <-> holds pg_dom h c m.
+Proof.
+  unfold pg_vb, holds. cbn [check pg_dom]. split.
+  - destruct (resolve_args pg_dom m (cargs c)) as [k|vs]; [discriminate|].
+    destruct (pg_check h (cpred c) vs) as [[|]| |] eqn:E; try discriminate. intros _. eauto.
+  - intros [vs [-> ->]]. reflexivity.
+Qed.
+
+Theorem pg_mutex_tree_det_faithful cs fuel T first fi rest h m :
+  sort_with_indices pgc_cmp cs = (first, fi) :: rest -> is_ne first = false ->
+  pg_tree fuel cs = Ok T ->
+  (forall c, In c cs -> length (cargs c) = pg_arity (cpred c)) ->
+  inj_on m (flat_map cargs cs) ->
+  det_faithful (pg_vb h m) T cs.
+Proof.
+  intros Es Hne Pt Har Hinj.
+  destruct (pg_tree_root_exclusive cs fuel T first fi rest Es Hne Pt Har) as [_ [root [Hr Hx]]].
+  apply det_faithful_of_exclusive.
+  - intros root' l1 c1 k1 l2 c2 k2 l3 Hr' E V1 V2. rewrite Hr in Hr'. inversion Hr'; subst root'.
+    apply (Hx l1 c1 k1 l2 c2 k2 l3 E h m); [|now apply pg_vb_holds|now apply pg_vb_holds].
+    (* the children carry constraints of the list *)
+    unfold pg_tree in Pt. destruct cs as [|c0 cs']; [cbn in Es; discriminate|]. rewrite Es, Hne in Pt.
+    destruct (with_transitive_mutex pgc_eqb ((first, fi) :: rest) pg_is_mutex) as [t| |] eqn:W; cbn [rbind] in Pt; try discriminate.
+    inversion Pt; subst T. cbn [ct_nodes set_make_det] in Hr.
+    destruct (transitive_mutex_root pgc_eqb _ pg_is_mutex t first fi rest eq_refl W) as [_ [root2 [Hr2 [HS _]]]].
+    rewrite Hr in Hr2. inversion Hr2; subst root2.
+    assert (Hcs : forall c k, In (c, k) (tn_children root) -> In c (c0 :: cs')).
+    { intros c k Hin. destruct (HS c k Hin) as [Hm _]. apply in_map_iff in Hm as [[c' i] [Ec Hin']]. cbn [fst] in Ec. subst c'.
+      rewrite <- Es in Hin'. apply (sort_with_indices_in pgc_cmp) in Hin'. eapply nth_error_In; eauto. }
+    intros ka kb val Ha Hb Ga Gb. apply (Hinj ka kb val); auto.
+    + apply in_app_or in Ha as [Ha|Ha]; apply in_flat_map;
+        [exists c1; split; [apply (Hcs c1 k1); rewrite E; apply in_or_app; right; now left|exact Ha]
+        |exists c2; split; [apply (Hcs c2 k2); rewrite E; apply in_or_app; right; right; apply in_or_app; right; now left|exact Ha]].
+    + apply in_app_or in Hb as [Hb|Hb]; apply in_flat_map;
+        [exists c1; split; [apply (Hcs c1 k1); rewrite E; apply in_or_app; right; now left|exact Hb]
+        |exists c2; split; [apply (Hcs c2 k2); rewrite E; apply in_or_app; right; right; apply in_or_app; right; now left|exact Hb]].
+  - (* faithful under every valuation that respects constraint equality *)
+    unfold pg_tree in Pt. destruct cs as [|c0 cs']; [cbn in Es; discriminate|]. rewrite Es, Hne in Pt.
+    destruct (with_transitive_mutex pgc_eqb ((first, fi) :: rest) pg_is_mutex) as [t| |] eqn:W; cbn [rbind] in Pt; try discriminate.
+    inversion Pt; subst T.
+    apply faithful_set_make_det.
+    refine (proj1 (with_transitive_mutex_ok pgc_eqb (pg_vb h m) _ (c0 :: cs') _ _ t _ W)).
+    + intros a b Eab. apply pgc_eqb_eq in Eab. now subst.
+    + intros c i Hin. apply (sort_with_indices_in pgc_cmp). rewrite Es. exact Hin.
+Qed.
